@@ -364,6 +364,29 @@ def rule_absent(ctx, m, arms):
         if any(combo[d] for d in ('POINT', 'THRUST_MODE')) and combo.get('POINT') and combo.get('THRUST_MODE'):
             continue
         label = ''.join(d[0] for d in rdims if combo[d]) or 'scalar'
+        # R2b: per-point cells are variable-length: a cell that was never written reads back as an empty array, and the
+        # reader uses emptiness as its "never written" marker (`all(cell == fill)` is vacuously true for an empty cell,
+        # `len(v) > 0` filters species).  That marker must not be met by a value that can legitimately be stored: it is,
+        # whenever a trajectory may have zero points.
+        if combo.get('POINT') and not combo.get('THRUST_MODE'):
+            arm_txt = ' '.join(norm(s_) for s_ in case.body)
+            vacuous = [x for s_ in case.body for x in ast.walk(s_) if isinstance(x, ast.Call) and call_name(x) == 'all'
+                       and x.args and isinstance(x.args[0], ast.Compare)]
+            empt = [x for s_ in case.body for x in ast.walk(s_) if isinstance(x, ast.Compare) and norm(x).startswith('len(')
+                    and norm(x).endswith(('> 0', '!= 0', '>= 1'))]
+            uses_emptiness = bool(vacuous or empt)
+            add = m.func('TrajectoryStore.add')
+            zero_refused = any(isinstance(r, ast.Raise) and any(
+                any(k in norm(t) for k in ('len(trajectory) == 0', 'len(trajectory) < 1', 'not len(trajectory)', 'npoints == 0',
+                                           'npoints < 1')) for t, pol, _ in guards_of(r)) for r in walk_no_nested(add.node))
+            ok = not uses_emptiness or zero_refused
+            marker = norm(vacuous[0])[:50] if vacuous else (norm(empt[0]) if empt else '?')
+            ctx.ob('C03-R2', rd, f'reader arm {label}: the never-written marker is not met by a storable value', ok,
+                   ('zero-point trajectories are refused by add' if zero_refused else 'the marker is not emptiness') if ok else
+                   (f'the marker is emptiness (`{marker}`), an empty per-point array is what a zero-point trajectory stores, and `add` accepts zero-point trajectories: '
+                    'its arrays read back as unset (None)' + (' and its species are dropped' if combo['SPECIES'] else
+                                                               '; for a required field _load_trajectory then fails with TypeError (len(None))')),
+                   line=case.pattern.lineno)
         # can the writer skip a cell in this arm?
         w_skips = [n for n in ast.walk(wcase) if isinstance(n, ast.If) and
                    any(isinstance(o, ast.In) for c in ast.walk(n.test) if isinstance(c, ast.Compare) for o in c.ops)]
